@@ -50,6 +50,15 @@ def _corrupt(rows, rng):
     return "line %d: hold[%s][%s].until + 1h" % (i + 1, s, g)
 
 
+def _dedupe(vs):
+    seen, out = set(), []
+    for v in vs:
+        if v.key not in seen:
+            seen.add(v.key)
+            out.append(v)
+    return out
+
+
 def run(ctx):
     workers = ctx.pick(8, 16)
     notes = []
@@ -80,6 +89,7 @@ def run(ctx):
     cwd = os.path.join(common.REPO, "overlord", "snapstate")
     tdir = ctx.subdir("traces")
     violations = []
+    divergences = []
     totals = {"traces": 0, "calls": 0, "refused": 0, "distinct_hold_states": 0, "events": 0}
     samples = []
     corrupt = None
@@ -102,21 +112,25 @@ def run(ctx):
                 raise InfraError("hold trace %s: lenient pass stuck at line %s (driver log inconsistent)" % (mode, r.get("lenient_line")))
             if r["kind"] == "divergence":
                 evs = conf.case_events(rows, r["line"])
-                raise InfraError("hold trace %s: real step %s (result %s) deviates from RefreshHold at line %d without "
-                                 "violating any C15 invariant -- model/code divergence to triage (history: %s)"
-                                 % (mode, _ev_summary(evs[-1]), evs[-1]["res"], r["line"],
-                                    " ; ".join(_ev_summary(e) for e in evs[-6:])))
+                divergences.append("hold trace %s: real step %s (result %s) deviates from RefreshHold at line %d without "
+                                   "violating any C15 invariant -- model/code divergence to triage (history: %s)"
+                                   % (mode, _ev_summary(evs[-1]), evs[-1]["res"], r["line"],
+                                      " ; ".join(_ev_summary(e) for e in evs[-6:])))
+                continue
             violations.append(_violation(rows, r, mode))
         if mode == "default":
             for ev in rows:
                 if ev["ev"] == "Hold" and len(samples) < 4 and (not ev["res"]["ok"] or len(samples) % 2 == 0):
                     samples.append({"call": _ev_summary(ev), "clock_h": ev["st"]["now"], "result": ev["res"],
                                     "held_snaps_auto": ev["st"]["reported"][0]})
-            if not violations:
+            if not violations and not divergences:
                 corrupt = conf.corruption_check(ctx, "TraceRefreshHold", tcfg, out, _corrupt, "hold")
+    if divergences and not violations:
+        raise InfraError(divergences[0])
     if totals["refused"] < 5 or totals["distinct_hold_states"] < 20:
         raise InfraError("vacuity guard: real executions too thin: %s" % totals)
 
+    violations = _dedupe(violations)
     return Result(
         level="model_checking",
         coverage={
